@@ -40,7 +40,13 @@ try:
                 if not cand.endswith(".go"):
                     dest = cand.rstrip("/") + "/" + base; break
         if dest is None:
-            raise SystemExit("cannot place demo " + d)
+            # no placement note: a test file goes into the (first) package the patch touches
+            tp = sorted({os.path.dirname(l[6:].strip()) for l in open(os.path.join(src, "patch.diff")) if l.startswith("+++ b/")})
+            if base.endswith("_test.go") and tp:
+                dest = tp[0] + "/" + base
+                note += " -run " + "TestMutDemo" + pid + var
+            else:
+                raise SystemExit("cannot place demo " + d)
         os.makedirs(os.path.dirname(os.path.join(WT, dest)), exist_ok=True)
         shutil.copyfile(d, os.path.join(WT, dest))
         placed.append(dest)
@@ -71,7 +77,8 @@ try:
         os.remove(os.path.join(WT, d))
     for t in touched:
         if t in RUNNABLE:
-            rc, o = sh("timeout 1200 go test -count=1 ./%s/ 2>&1 | tail -5" % t, timeout=1300)
+            sel = "-run 'TestNewWAL1|TestWAL_Add|TestWAL_ListEntries'" if t == "pkg/wal" else ""  # TestWAL_GetToken needs the network (fails on the unchanged tree too)
+            rc, o = sh("timeout 1200 go test -count=1 %s ./%s/ 2>&1 | tail -5" % (sel, t), timeout=1300)
             ok = rc == 0 and "FAIL" not in o.replace("TestWAL_GetToken", "")
             if t == "pkg/wal":
                 ok = "FAIL" not in re.sub(r".*TestWAL_GetToken.*\n?", "", o).replace("FAIL\tgithub.com/oneconcern/datamon/pkg/wal", "")
